@@ -258,3 +258,40 @@ Proof.
     replace ((1 + 1 + 1) * ((1 + 1) * 1) / 1 * 1)%R with 6%R by field.
     rewrite Rabs_pos_eq by lra. lra.
 Qed.
+
+(* ---- first-order consistency of the UPWIND stencil (convectionUpwindTerm), interior cell of a uniform Cartesian axis, constant
+   face velocity of either sign: the one-sided differences and the model's stencil, | stencil - u f'(xi) | <= |u| max|f''| h / 2 ---- *)
+Theorem C02_taylor_backward_difference : forall f : R -> R, (forall t k, (k <= 2)%nat -> ex_derive_n f k t) ->
+  forall x h M : R, (0 < h)%R ->
+  (forall t, (x - h < t < x + h)%R -> (Rabs (Derive_n f 2 t) <= M)%R) ->
+  (Rabs ((f x - f (x - h)) / h - Derive_n f 1 x) <= M * h / 2)%R.
+Proof. exact backward_difference_remainder. Qed.
+Print Assumptions C02_taylor_backward_difference.
+Theorem C02_taylor_forward_difference : forall f : R -> R, (forall t k, (k <= 2)%nat -> ex_derive_n f k t) ->
+  forall x h M : R, (0 < h)%R ->
+  (forall t, (x - h < t < x + h)%R -> (Rabs (Derive_n f 2 t) <= M)%R) ->
+  (Rabs ((f (x + h) - f x) / h - Derive_n f 1 x) <= M * h / 2)%R.
+Proof. exact forward_difference_remainder. Qed.
+Print Assumptions C02_taylor_forward_difference.
+Theorem C02_taylor_upwind_cartesian_axis : forall (f : R -> R) (m : Mesh ROps) (a : axis) (c : cell) (h xi uc M : R) (u : fvar ROps) (x : cvar ROps),
+  (forall t k, (k <= 2)%nat -> ex_derive_n f k t) ->
+  (0 < h)%R -> uc <> 0%R ->
+  is_lo a c = false -> is_hi ROps m a c = false ->
+  mfac ROps m a c = 1%R -> mA ROps m a (cidx a c) = 1%R -> mA ROps m a (pred (cidx a c)) = 1%R -> mW ROps m a (cidx a c) = h ->
+  u a c = uc /\ u a (cdn a c) = uc ->
+  x (cdn a c) = f (xi - h)%R /\ x c = f xi /\ x (cup a c) = f (xi + h)%R ->
+  (forall t, (xi - h < t < xi + h)%R -> (Rabs (Derive_n f 2 t) <= M)%R) ->
+  (Rabs (apply_axis ROps (upwAW ROps m u u) (upwAP ROps m u u) (upwAE ROps m u u) x a c - uc * Derive_n f 1 xi)
+   <= Rabs uc * (M * h / 2))%R.
+Proof. exact taylor_upwind_cartesian_axis. Qed.
+Print Assumptions C02_taylor_upwind_cartesian_axis.
+(* non-vacuity, and the constant is sharp: for f = x^2 (f'' = 2) the backward remainder is exactly h = 2 h / 2 *)
+Example C02_taylor_upwind_nonvacuous : forall x h : R, (0 < h)%R ->
+  (Rabs ((x ^ 2 - (x - h) ^ 2) / h - Derive_n (fun t => t ^ 2) 1 x) <= 2 * h / 2)%R.
+Proof.
+  intros x h Hh. apply (C02_taylor_backward_difference (fun t => t ^ 2)%R); [|exact Hh|].
+  - intros t k _. apply ex_derive_n_pow.
+  - intros t _. rewrite Derive_n_pow_smalli by apply le_n. rewrite Nat.sub_diag. simpl.
+    replace ((1 + 1) * 1 / 1 * 1)%R with 2%R by field.
+    rewrite Rabs_pos_eq by lra. lra.
+Qed.
